@@ -33,7 +33,7 @@ func main() {
 		{Name: "wal-every-litefs-checkpoint-edge-3pg-4ops", Cfg: "MC_DBFile_wal_edge.cfg", Timeout: 15 * time.Minute, MaxKeep: 0, LastIs: "LCkpt"},
 		{Name: "wal-block-edges-with-checkpoint-3pg-4ops", Cfg: "MC_DBFile_wal_L2b.cfg", Timeout: 10 * time.Minute, MaxKeep: 0, Need: "Ckpt", Layouts: []sim.Layout{sim.L2(512), sim.L3(512)}},
 		{Name: "wal-block-edges-3pg-3ops", Cfg: "MC_DBFile_wal_L2.cfg", Timeout: 10 * time.Minute, MaxKeep: 0, Layouts: []sim.Layout{sim.L2(512), sim.L3(512)}},
-		{Name: "lock-page-layout-4pg", Cfg: "MC_DBFile_lock_wal.cfg", Timeout: 10 * time.Minute, MaxKeep: core.Pick(args, 3, 48), Layouts: []sim.Layout{sim.L4()}, Workers: 3, MinNs: 4},
+		{Name: "lock-page-layout-4pg", Cfg: "MC_DBFile_lock_wal.cfg", Timeout: 10 * time.Minute, MaxKeep: core.Pick(args, 3, 48), Layouts: []sim.Layout{sim.L4()}, Workers: 2, MinNs: 4},
 		{Name: "deep-simulation-4pg-8ops", Cfg: "MC_DBFile_sim.cfg", Simulate: true, Num: core.Pick(args, 40, 400), Depth: 200, Timeout: 10 * time.Minute, MaxKeep: core.Pick(args, 150, 3000)},
 	})
 }
